@@ -45,6 +45,6 @@ def sample(c, o):
     return {'prog': c['prog'], 'env': c['env'], 'reported_first_ops': (o.get('plain') or {}).get('ops', [])[:3]}
 
 
-LEVEL_TEXT = 'see DESIGN.md C01'
-LEVEL_NOTE = 'see DESIGN.md section 9'
+LEVEL_TEXT = "Coq theorems over the executable Core model (run_prog / add_node / times / listing): for every build program and duration setting each reported (start, end) is end = start + duration and satisfies its link's equation against the referent's times (three relation types, no relation = enclosing context, multi-link = FOLLOWED_BY the latest-ending member); the solution is unique; adding never moves earlier operations; an operation added without relation hangs below a channel-sharing node of maximal relation depth or at the root; the same through nesting (shift lemma) and after apply_modifiers. The model is tied to the running code by a correspondence run in which spec_ok judges the implementation's reported times directly."
+LEVEL_NOTE = "Trusted: Coq kernel (vm_compute), translator for Gen/Ident.v + Gen/Classes.v, the hand-written Core model (tied by correspondence on random nested programs, plain / duration-first / unrolled), exactness of binary64 on multiples of 1/8. Relation depth in generated programs stays far below the interpreter's recursion limit. No axioms."
 TECHNIQUE = 'Coq proof over an executable model + correspondence evaluated by vm_compute'
